@@ -492,7 +492,8 @@ class StridedInterval:
         if len(ssplit) == 1:
             lower = self.lower_bound >> shift_amount
             upper = self.upper_bound >> shift_amount
-            stride = max(self.stride >> shift_amount, 1)
+            # the results keep a stride only if no member loses set bits that differ between members
+            stride = self.stride >> shift_amount if self.stride % (1 << shift_amount) == 0 else 1
 
             return StridedInterval(
                 bits=self.bits, lower_bound=lower, upper_bound=upper, stride=stride, uninitialized=self.uninitialized
@@ -519,14 +520,15 @@ class StridedInterval:
         # back together for better precision. Note that it's an improvement from
         # the original WrappedIntervals paper.
 
-        nsplit = self._nsplit()
+        # split at both poles: every part is then of one sign and does not wrap around
+        nsplit = self._psplit()
         if len(nsplit) == 1:
             # preserve the highest bit :-)
             highest_bit_set = self.lower_bound > StridedInterval.signed_max_int(nsplit[0].bits)
 
             lower = self.lower_bound >> shift_amount
             upper = self.upper_bound >> shift_amount
-            stride = max(self.stride >> shift_amount, 1)
+            stride = self.stride >> shift_amount if self.stride % (1 << shift_amount) == 0 else 1
             mask = (2**shift_amount - 1) << (self.bits - shift_amount)
 
             if highest_bit_set:
@@ -537,10 +539,11 @@ class StridedInterval:
             return StridedInterval(
                 bits=self.bits, lower_bound=lower, upper_bound=upper, stride=stride, uninitialized=self.uninitialized
             )
-        a = nsplit[0]._rshift_arithmetic(shift_amount)
-        b = nsplit[1]._rshift_arithmetic(shift_amount)
+        ret = nsplit[0]._rshift_arithmetic(shift_amount)
+        for part in nsplit[1:]:
+            ret = ret.union(part._rshift_arithmetic(shift_amount))
 
-        return a.union(b)
+        return ret
 
     #
     # Comparison operations
@@ -1966,7 +1969,10 @@ class StridedInterval:
             if shift_amount.upper_bound >= 0:
                 return (0, self.bits)
             return (self.bits, self.bits)
-        return (round(self.bits, self.lower_bound), round(self.bits, self.upper_bound))
+        if shift_amount.lower_bound > shift_amount.upper_bound:
+            # the amounts wrap around: both very small and very large ones occur
+            return (0, self.bits)
+        return (round(self.bits, shift_amount.lower_bound), round(self.bits, shift_amount.upper_bound))
 
     @reversed_processor
     def rshift_logical(self, shift_amount: StridedInterval) -> StridedInterval:
@@ -2055,32 +2061,54 @@ class StridedInterval:
     def lshift(self, shift_amount: StridedInterval) -> StridedInterval:
         lower, upper = self._get_shift_range(shift_amount)
 
-        # Shift the lower_bound and upper_bound by all possible amounts, and
-        # get min/max values from all the resulting values
+        # Shift by all possible amounts, and union all possible results
 
-        new_lower_bound = None
-        new_upper_bound = None
+        ret = None
         for amount in range(lower, upper + 1):
-            lower_shifted = self.lower_bound << amount
-            if new_lower_bound is None or lower_shifted < new_lower_bound:
-                new_lower_bound = lower_shifted
-            upper_shifted = self.upper_bound << amount
-            if new_upper_bound is None or upper_shifted > new_upper_bound:
-                new_upper_bound = upper_shifted
+            si_ = self._lshift(amount)
+            ret = si_ if ret is None else ret.union(si_)
 
-        # NOTE: If this is an arithmetic operation, we should take care
-        # of sign-changes.
+        if ret is None:
+            return StridedInterval.top(self.bits)
 
-        ret = StridedInterval(
+        ret.normalize()
+        ret.uninitialized = self.uninitialized
+        return ret
+
+    def _lshift(self, shift_amount: int) -> StridedInterval:
+        """
+        Left shift with a concrete shift amount
+
+        :param int shift_amount: Number of bits to shift left.
+        :return: The new StridedInterval after left shifting
+        """
+
+        if self.is_empty:
+            return self
+
+        if shift_amount >= self.bits:
+            return StridedInterval(bits=self.bits, stride=0, lower_bound=0, upper_bound=0)
+
+        if self.lower_bound <= self.upper_bound and (self.upper_bound << shift_amount) <= self.max_int(self.bits):
+            # no member loses a set bit
+            return StridedInterval(
+                bits=self.bits,
+                stride=self.stride << shift_amount,
+                lower_bound=self.lower_bound << shift_amount,
+                upper_bound=self.upper_bound << shift_amount,
+                uninitialized=self.uninitialized,
+            )
+
+        # set bits are shifted out, so the results are not ordered like the members: all that is known is that they
+        # are multiples of 2**shift_amount
+        step = 1 << shift_amount
+        return StridedInterval(
             bits=self.bits,
-            stride=max(self.stride << lower, 1),
-            lower_bound=new_lower_bound,
-            upper_bound=new_upper_bound,
+            stride=step,
+            lower_bound=0,
+            upper_bound=self.max_int(self.bits) - (step - 1),
             uninitialized=self.uninitialized,
         )
-        ret.normalize()
-
-        return ret
 
     @reversed_processor
     def cast_low(self, tok: int) -> StridedInterval:
